@@ -1597,13 +1597,14 @@ def reassign_case(ctx, cuqi, shape, rng):
         got = []
         A = J(**kw(S))
         got.append(("child derived before", num(A.logd(**kw(rest))), old_total))
-        setattr(facs[k], attr_name(i), np.array(fs2[k]["slots"][i]["val"]))
+        an = names[fs[k]["slots"][i]["attrvar"]] if fs[k]["slots"][i].get("attrvar") is not None else attr_name(i)
+        setattr(facs[k], an, np.array(fs2[k]["slots"][i]["val"]))
         facs[k]._spec = fs2[k]
         got.append(("child derived before, after the re-assignment", num(A.logd(**kw(rest))), old_total))
         got.append(("the joint after the re-assignment", num(J.logd(**kw(range(n)))), new_total))
         B = J(**kw(S))
         got.append(("child derived after the re-assignment", num(B.logd(**kw(rest))), new_total))
-        setattr(facs[k], attr_name(i), np.array(fs[k]["slots"][i]["val"]))
+        setattr(facs[k], an, np.array(fs[k]["slots"][i]["val"]))
         got.append(("the joint after assigning the old value back", num(J.logd(**kw(range(n)))), old_total))
         got.append(("child derived in between", num(B.logd(**kw(rest))), new_total))
         for what, v, exp in got:
@@ -1713,9 +1714,13 @@ def run(ctx):
         {k: v for k, v in sorted(kinds_seen.items())}, bare))
     if not STATE["collide_ok"]:
         # the class of the open finding: cells whose graph has an attribute named like a variable entering through another attribute
+        # (while it is open the code's behaviour inside the class is not modelled -- the attribute is destroyed, parameters vanish --
+        # so these cells are judged by the independent oracle only; with the repair they run through the model like all others)
         for c in cases:
-            if c.impl_fail and ("/collide" in c.cell or "cross-name-collision" in c.cell):
-                c.signature = SIG_COLLIDE
+            if "/collide" in c.cell or "cross-name-collision" in c.cell:
+                c.expr = "true"
+                if c.impl_fail:
+                    c.signature = SIG_COLLIDE
     return Result(cases=cases, rule=RULE,
                   extra={"kinds_reached": kinds_seen, "bare_likelihood_branch_reached": bare, "strict_main_parameter": strict},
                   assumptions=["factor log-densities enter the model as tables of the values of the untouched factors (integer formulas evaluated "
